@@ -1,5 +1,6 @@
 (* C18 — Time-unit conversions for kernel and CSPTP interfaces are exact and normalised. *)
-From Coq Require Import ZArith Reals.
+From Coq Require Import ZArith Reals Lia.
+From Flocq Require Import IEEE754.BinarySingleNaN.
 From ST Require Import Base.Ints Base.F64 Model.NtpTime Model.Units Model.UnitsOracle Proofs.UnitsProofs Proofs.UnitsFloatProofs.
 Open Scope Z_scope.
 
@@ -30,6 +31,44 @@ Print Assumptions C18_csptp_ts_wire_roundtrip.
 Theorem C18_csptp_ts_range_refused : forall t, time_sec t < 0 \/ 2^48 <= time_sec t -> csptp_ts_of_time t = None.
 Proof. exact csptp_ts_range_refused. Qed.
 Print Assumptions C18_csptp_ts_range_refused.
+
+(* the wire allows ANY 32-bit nanoseconds field.  A non-canonical one (>= 10^9) denotes the instant
+   s + ns/10^9; re-encoding keeps the instant but not the fields (so C18_csptp_ts_wire_roundtrip cannot hold
+   for it), and at the last 48-bit seconds the carried instant is beyond the range: the code panics.
+   csptp.TimestampFromTime has no caller outside tests at /repo HEAD (the CSPTP server's response path is not
+   wired up), so the panic is not reachable from the network today. *)
+Theorem C18_csptp_ts_noncanonical : forall s ns, 0 <= s -> 0 <= ns < 2^32 -> s + ns / 1000000000 < 2^48 ->
+  csptp_ts_of_time (csptp_time_of_ts s ns) = Some (s + ns / 1000000000, ns mod 1000000000).
+Proof. exact csptp_ts_noncanonical. Qed.
+Print Assumptions C18_csptp_ts_noncanonical.
+
+Theorem C18_csptp_ts_noncanonical_differs : forall s ns, 0 <= s -> 1000000000 <= ns < 2^32 ->
+  csptp_ts_of_time (csptp_time_of_ts s ns) <> Some (s, ns).
+Proof. exact csptp_ts_noncanonical_differs. Qed.
+Print Assumptions C18_csptp_ts_noncanonical_differs.
+
+Theorem C18_csptp_ts_edge_refused : forall s ns, 0 <= s -> 0 <= ns -> 2^48 <= s + ns / 1000000000 ->
+  csptp_ts_of_time (csptp_time_of_ts s ns) = None.
+Proof. exact csptp_ts_edge_refused. Qed.
+Print Assumptions C18_csptp_ts_edge_refused.
+
+(* oracle of the kind csptp.ts_reencode (instant preserved, canonical fields unchanged, refusal exactly beyond
+   the range) on the model, for every 48-bit seconds and every 32-bit nanoseconds field *)
+Theorem C18_ts_reencode_oracle : forall s ns, 0 <= s < 2^48 -> 0 <= ns < 2^32 ->
+  match csptp_ts_of_time (csptp_time_of_ts s ns) with
+  | Some (a, b) => C18_ts_reencode_ok s ns 1 a b = true
+  | None => C18_ts_reencode_ok s ns 0 0 0 = true
+  end.
+Proof. exact ts_reencode_oracle. Qed.
+Print Assumptions C18_ts_reencode_oracle.
+
+Example C18_csptp_ts_witnesses :
+  csptp_ts_of_time (csptp_time_of_ts 1717243200 1000000000) = Some (1717243201, 0) /\
+  csptp_ts_of_time (csptp_time_of_ts (2^48 - 1) 999999999) = Some (2^48 - 1, 999999999) /\
+  csptp_ts_of_time (csptp_time_of_ts (2^48 - 1) 1000000000) = None /\
+  csptp_ts_of_time (csptp_time_of_ts (2^48 - 4) 4000000000) = None /\
+  csptp_ts_of_time (csptp_time_of_ts (2^48 - 4) 3999999999) = Some (2^48 - 1, 999999999).
+Proof. repeat split; vm_compute; reflexivity. Qed.
 
 (* correction fields convert by dropping the 16 sub-nanosecond bits (floor, also for negative values) *)
 Theorem C18_timeinterval : forall i, let d := csptp_dur_of_interval i in d * 65536 <= i < (d + 1) * 65536.
@@ -95,6 +134,20 @@ Theorem C18_formulas_oracle : forall t0 t1 t2 t3 c1 c3 utc,
 Proof. exact formulas_oracle. Qed.
 Print Assumptions C18_formulas_oracle.
 
+(* the oracle of the kind csptp.client (the real client against a responder whose timestamps are theta ahead)
+   is a consequence of the formulas: request delay d1 in [0, d1max], reply sent at s2 and delayed by D2,
+   corrections c1, c3 and announced UTC correction U arbitrary; c1 and c3 cancel *)
+Theorem C18_client_oracle : forall t0 s2 d1 D2 theta c1 c3 U d1max,
+  0 <= d1 <= d1max ->
+  in_i64 (theta + d1 + c1) -> in_i64 (theta + d1) -> in_i64 (D2 - theta + c3) -> in_i64 (D2 - theta) ->
+  in_i64 (2 * theta + d1 - D2) -> in_i64 (d1 + D2) -> in_i64 (theta + d1 - U) -> in_i64 (D2 - theta + U) ->
+  let t1 := t0 + d1 + theta + c1 in let t2 := s2 + theta - c3 in let t3 := s2 + D2 in
+  C18_client_ok theta U d1max D2
+    (csptp_clock_offset t0 t1 t2 t3 c1 c3) (csptp_mean_path_delay t0 t1 t2 t3 c1 c3)
+    (csptp_c2s_delay t0 t1 c1 U) (csptp_s2c_delay t2 t3 c3 U) = true.
+Proof. exact client_oracle. Qed.
+Print Assumptions C18_client_oracle.
+
 (* 2024-06-01T12:00:00Z = 1717243200 s: a server 37 ns ahead, 0.5 ms each way, residence times 3 and 4 ns,
    reply sent 1.5 ms later; and with a 37 s UTC correction on the one-way delays *)
 Example C18_csptp_2024 :
@@ -128,6 +181,18 @@ Example C18_freq_roundtrip_sharp :
   scaled_ppm_from_freq (freq_from_scaled_ppm 250) = 250 /\ scaled_ppm_from_freq (freq_from_scaled_ppm 32768000) = 32768000.
 Proof. repeat split; vm_compute; reflexivity. Qed.
 
+(* the other direction, freq -> scaled ppm -> freq, for every finite float64 frequency of the kernel's range
+   (|f| x 65536e6 <= 2^25, i.e. up to 512 ppm): the frequency that comes back differs from f by less than
+   one unit of 2^-16 ppm (1/65536e6), plus 2^-26 of a unit for the two roundings; the intermediate scaled-ppm
+   value is within the int64 range.  (One whole unit can be lost: int64() truncates.) *)
+Theorem C18_freq_roundtrip_back : forall f : f64, BinarySingleNaN.is_finite f = true ->
+  (Rabs (BinarySingleNaN.B2R f * 65536000000) <= 33554432)%R ->
+  let r := scaled_ppm_from_freq f in
+  BinarySingleNaN.is_finite (freq_from_scaled_ppm r) = true /\ Z.abs r <= 33554433 /\
+  (Rabs (BinarySingleNaN.B2R (freq_from_scaled_ppm r) * 65536000000 - BinarySingleNaN.B2R f * 65536000000) < 1 + / 67108864)%R.
+Proof. exact ppm_freq_roundtrip. Qed.
+Print Assumptions C18_freq_roundtrip_back.
+
 (* each direction on its own (oracles of the kinds units.ppm_of_freq and units.freq_of_ppm):
    ScaledPPMFromFreq f on EVERY float64 f: same sign, |result| = |f| x 65536e6 up to 2^-52 and the truncation
    (for |f| x 65536e6 < 2^62; NaN, infinities and larger values are unconstrained);
@@ -142,26 +207,55 @@ Print Assumptions C18_freq_of_ppm_oracle.
 
 (* ---- "the drift allowance is proportional to the interval" (clocks.SystemClock.Drift) ----
 
-   Full clause: for every configured drift (ns per second) and every interval whose allowance
-   drift x interval / 10^9 does not overflow int64 nanoseconds, Drift(interval) is that allowance up
-   to the rounding of the float64 evaluation and the conversion to whole nanoseconds.
-
-   Proved below on the range  0 < drift <= MaxInt64,  0 <= interval <= MaxInt64,
-   drift x interval < 2^62 x 10^9  (allowance below 2^62 ns = 146 years; note that drift x interval
-   itself may be far beyond int64, e.g. 500 us/s x 6 h = 1.08 x 10^19 ns^2 > 2^63).
-   Not covered (hence _partial on the headline statement): negative intervals or drifts (the code is
-   odd in both, not proved) and allowances in [2^62, 2^63) ns.  drift = 0 is clocks.UnknownDrift
-   and means "no bound" (C18_drift_unknown). *)
+   For every configured drift (ns per second, any sign, not 0) and every interval (any sign) whose allowance
+   drift x interval / 10^9 is below 2^63 - 2^13 ns in magnitude, Drift(interval) is that allowance up to the
+   rounding of the float64 evaluation (2^-50 relative) and the conversion to whole nanoseconds; it has the sign
+   of drift x interval (C18_drift_odd, C18_drift_all_signs).  drift x interval itself may be far beyond int64
+   (500 us/s x 6 h = 1.08 x 10^19 ns^2 > 2^63).  In the last 8192 ns below 2^63 the float result rounds up to
+   2^63 and int64() yields MinInt64: C18_drift_top_band (this is where "does not overflow int64 nanoseconds"
+   ends for this function).  drift = 0 is clocks.UnknownDrift and means "no bound" (C18_drift_unknown). *)
 
 (* Drift(d) = floor(F) for a real F within 2^-50 (relative) of drift x d / 10^9: six roundings to
    nearest of at most 2^-53 each, no underflow, no overflow, one truncation *)
-Theorem C18_drift_proportional_partial : forall drift_ns d,
-  0 < drift_ns <= max_i64 -> 0 <= d <= max_i64 -> drift_ns * d < 2^62 * 1000000000 ->
+Theorem C18_drift_proportional : forall drift_ns d,
+  0 < drift_ns <= max_i64 -> 0 <= d <= max_i64 -> drift_ns * d < (2^63 - 2^13) * 1000000000 ->
   exists F : R,
     (IZR (sysclk_drift drift_ns d) <= F < IZR (sysclk_drift drift_ns d) + 1)%R /\
     (Rabs (F - IZR (drift_ns * d) / 1000000000) <= IZR (drift_ns * d) / 1000000000 * / 1125899906842624)%R.
 Proof. exact sysclk_drift_proportional. Qed.
-Print Assumptions C18_drift_proportional_partial.
+Print Assumptions C18_drift_proportional.
+
+(* negative intervals and negative drifts: Drift is odd in both (also at MinInt64: |x| <= 2^63) *)
+Theorem C18_drift_odd : forall drift_ns d,
+  0 < drift_ns <= 2^63 -> 0 <= d <= 2^63 -> drift_ns * d < (2^63 - 2^13) * 1000000000 ->
+  sysclk_drift drift_ns (- d) = - sysclk_drift drift_ns d /\
+  sysclk_drift (- drift_ns) d = - sysclk_drift drift_ns d /\
+  sysclk_drift (- drift_ns) (- d) = sysclk_drift drift_ns d.
+Proof.
+  intros drift_ns d Hn Hd Hq. apply sysclk_drift_signed.
+  unfold drift_range, DRL. change (2^63) with 9223372036854775808 in *. change (2^13) with 8192 in *. lia.
+Qed.
+Print Assumptions C18_drift_odd.
+
+(* all signs at once, integer form: |D x 10^9 - q| x 2^50 <= 10^9 x 2^50 + |q|, D has the sign of q = drift x d *)
+Theorem C18_drift_all_signs : forall drift_ns d, in_i64 drift_ns -> in_i64 d -> drift_ns <> 0 ->
+  Z.abs (drift_ns * d) < (2^63 - 2^13) * 1000000000 ->
+  let D := sysclk_drift drift_ns d in let q := drift_ns * d in
+  Z.abs (D * 1000000000 - q) * 2^50 <= 1000000000 * 2^50 + Z.abs q /\
+  (0 <= q -> 0 <= D) /\ (q <= 0 -> D <= 0).
+Proof. exact sysclk_drift_all_signs. Qed.
+Print Assumptions C18_drift_all_signs.
+
+(* what happens above the range: an allowance of 2^63 - 1 ns (1 s/s over MaxInt64 ns) becomes MinInt64, and so
+   does everything that truly overflows; just below the band the result is still right *)
+Example C18_drift_top_band :
+  sysclk_drift 1000000000 max_i64 = min_i64 /\
+  sysclk_drift 1000000000 (max_i64 - 8192) = 9223372036854766592 /\
+  sysclk_drift 2000000000 max_i64 = min_i64 /\
+  sysclk_drift 500000 (- 21600000000000) = - 10800000000 /\
+  sysclk_drift (- 500000) 21600000000000 = - 10800000000 /\
+  sysclk_drift 1000 min_i64 = - 9223372036854.
+Proof. repeat split; vm_compute; reflexivity. Qed.
 
 (* the property oracle used on the implementation's outputs holds for the model on ALL int64 inputs
    (outside the range above the oracle is true by definition): D >= 0, D = 0 for the empty interval,
@@ -173,10 +267,13 @@ Print Assumptions C18_drift_oracle.
 
 (* integer form, sharper constant: |D x 10^9 - drift x d| x 2^50 <= 10^9 x 2^50 + drift x d *)
 Theorem C18_drift_close : forall drift_ns d,
-  0 < drift_ns <= max_i64 -> 0 <= d <= max_i64 -> drift_ns * d < 2^62 * 1000000000 ->
+  0 < drift_ns <= max_i64 -> 0 <= d <= max_i64 -> drift_ns * d < (2^63 - 2^13) * 1000000000 ->
   let D := sysclk_drift drift_ns d in let q := drift_ns * d in
   0 <= D /\ Z.abs (D * 1000000000 - q) * 2^50 <= 1000000000 * 2^50 + q.
-Proof. intros drift_ns d Hn Hd Hq. apply sysclk_drift_int. repeat split; lia. Qed.
+Proof.
+  intros drift_ns d Hn Hd Hq. apply sysclk_drift_int.
+  unfold drift_range, DRL, max_i64 in *. change (2^63) with 9223372036854775808 in *. change (2^13) with 8192 in *. lia.
+Qed.
 Print Assumptions C18_drift_close.
 
 (* allowances below 2^50 ns (13 days): at most one nanosecond from floor(drift x d / 10^9) *)
@@ -188,7 +285,7 @@ Print Assumptions C18_drift_within_1ns.
 
 (* a longer interval never gets a smaller allowance; the empty interval gets none *)
 Theorem C18_drift_monotone : forall drift_ns d1 d2,
-  0 < drift_ns <= max_i64 -> 0 <= d1 <= d2 -> d2 <= max_i64 -> drift_ns * d2 < 2^62 * 1000000000 ->
+  0 < drift_ns <= max_i64 -> 0 <= d1 <= d2 -> d2 <= max_i64 -> drift_ns * d2 < (2^63 - 2^13) * 1000000000 ->
   sysclk_drift drift_ns d1 <= sysclk_drift drift_ns d2.
 Proof. exact sysclk_drift_monotone. Qed.
 Print Assumptions C18_drift_monotone.
